@@ -1084,13 +1084,22 @@ impl Tsa {
 
     /// Own encoder: bare TimeStampToken (ContentInfo / SignedData).
     pub fn build_token(&self, imprint_sha256: &[u8], o: &TokenOpts) -> Vec<u8> {
+        self.build_token_alg(Digest::Sha256.oid(), imprint_sha256, o)
+    }
+
+    /// TimeStampResp whose message imprint names an arbitrary hash algorithm (dotted OID) with the given hash value.
+    pub fn build_reply_alg(&self, imprint_alg_oid: &str, imprint: &[u8], o: &TokenOpts) -> Vec<u8> {
+        der::seq(&[der::seq(&[der::int(0)]), self.build_token_alg(imprint_alg_oid, imprint, o)])
+    }
+
+    pub fn build_token_alg(&self, imprint_alg_oid: &str, imprint_sha256: &[u8], o: &TokenOpts) -> Vec<u8> {
         let key = &self.cert.key;
         let dg = key.kind.default_digest();
         let dg_alg = der::seq(&[der::oid(dg.oid()), der::null()]);
         let tst = der::seq(&[
             der::int(1),
             der::oid("1.2.3.4.1"),
-            der::seq(&[der::seq(&[der::oid(Digest::Sha256.oid()), der::null()]), der::octet(imprint_sha256)]),
+            der::seq(&[der::seq(&[der::oid(imprint_alg_oid), der::null()]), der::octet(imprint_sha256)]),
             der::int(o.serial),
             der::gentime(o.gen_time),
             der::seq(&[der::int(1)]), // accuracy 1 s
@@ -1134,6 +1143,23 @@ impl Tsa {
         sd.push(der::tlv(0x31, &signer_info));
         der::seq(&[der::oid("1.2.840.113549.1.7.2"), der::explicit(0, &der::seq(&sd))])
     }
+}
+
+/// (name, OID) of message-imprint hash algorithms the kit can compute (through OpenSSL's EVP by name).
+pub const IMPRINT_ALGS: &[(&str, &str)] = &[
+    ("sha1", "1.3.14.3.2.26"),
+    ("sha224", "2.16.840.1.101.3.4.2.4"),
+    ("sha256", "2.16.840.1.101.3.4.2.1"),
+    ("sha384", "2.16.840.1.101.3.4.2.2"),
+    ("sha512", "2.16.840.1.101.3.4.2.3"),
+    ("sha512-256", "2.16.840.1.101.3.4.2.6"),
+    ("sha3-256", "2.16.840.1.101.3.4.2.8"),
+];
+
+/// hash of `data` with a named algorithm; None when this OpenSSL does not offer it
+pub fn hash_by_name(name: &str, data: &[u8]) -> Option<Vec<u8>> {
+    let md = MessageDigest::from_name(name)?;
+    hash(md, data).ok().map(|d| d.to_vec())
 }
 
 /// Extract the TimeStampToken (ContentInfo) from a TimeStampResp; None when `resp` is not a response with a token.
@@ -1219,6 +1245,32 @@ pub fn cert_id(subject: &Cert, issuer: &Cert) -> Vec<u8> {
 
 /// Own encoder: DER OCSPResponse (successful, id-pkix-ocsp-basic).
 pub fn build_ocsp(o: &OcspOpts) -> Vec<u8> {
+    build_ocsp_multi(o, &[])
+}
+
+/// Like `build_ocsp`, with further SingleResponses: (subject, issuer, status, placed before the main entry?).
+pub fn build_ocsp_multi(o: &OcspOpts, more: &[(&Cert, &Cert, OcspStatus, bool)]) -> Vec<u8> {
+    let one = |subject: &Cert, issuer: &Cert, st: &OcspStatus| -> Vec<u8> {
+        let status = match st {
+            OcspStatus::Good => der::tlv(0x80, &[]),
+            OcspStatus::Unknown => der::tlv(0x82, &[]),
+            OcspStatus::Revoked(t, reason) => {
+                let mut c = der::gentime(*t);
+                if let Some(r) = reason {
+                    c.extend(der::explicit(0, &der::enumerated(*r)));
+                }
+                der::tlv(0xA1, &c)
+            }
+        };
+        let mut single = vec![cert_id(subject, issuer), status, der::gentime(o.this_update)];
+        if let Some(n) = o.next_update {
+            single.push(der::explicit(0, &der::gentime(n)));
+        }
+        der::seq(&single)
+    };
+    let mut entries: Vec<Vec<u8>> = more.iter().filter(|m| m.3).map(|m| one(m.0, m.1, &m.2)).collect();
+    entries.push(one(o.subject, o.subject_issuer, &o.status));
+    entries.extend(more.iter().filter(|m| !m.3).map(|m| one(m.0, m.1, &m.2)));
     let status = match &o.status {
         OcspStatus::Good => der::tlv(0x80, &[]),
         OcspStatus::Unknown => der::tlv(0x82, &[]),
@@ -1239,7 +1291,8 @@ pub fn build_ocsp(o: &OcspOpts) -> Vec<u8> {
     } else {
         der::explicit(1, &o.responder.subject_der())
     };
-    let tbs = der::seq(&[responder_id, der::gentime(o.produced_at), der::seq(&[der::seq(&single)])]);
+    let _ = single;
+    let tbs = der::seq(&[responder_id, der::gentime(o.produced_at), der::seq(&entries)]);
     let key = &o.responder.key;
     let dg = key.kind.default_digest();
     let sig = sign_der_style(key, dg, &tbs);
